@@ -16,6 +16,8 @@ package main
 //                                             -> obs [state, #onTripped, #onStandby]
 //      [2 d]                    Tick d ns     -> obs []
 //      [3]                      Nop (a Complete with nothing in flight is rewritten to this)
+//      [4 k]                    k requests arriving together from k goroutines (issued in standby and inside the fallback
+//                               period; rewritten to Nop elsewhere) -> obs [number passed on, state, #onTripped, #onStandby]
 //    state: 0 standby, 1 tripped, 2 recovering. hint / lat.. are oracle slots filled in by Run:
 //    hint = the implementation's decision (0/1) where binary64 arithmetic of the configuration can round on an
 //    exact tie, 2 = none (the model decides exactly); lat = the value LatencyAtQuantileMS(q) of every latency
@@ -345,6 +347,40 @@ func (r *runner) arrive() (pass bool, err error) {
 	}
 }
 
+// burst lets k requests arrive together; the ones passed on stay in flight.
+func (r *runner) burst(k int) (passed int64, err error) {
+	start := make(chan struct{})
+	fell := make(chan struct{}, k)
+	now := nowNS()
+	for i := 0; i < k; i++ {
+		rq := &request{start: now, release: make(chan int, 1), done: make(chan struct{}, 1)}
+		req := httptest.NewRequest(http.MethodGet, "http://example.com/", nil)
+		req = req.WithContext(context.WithValue(req.Context(), reqKey{}, rq))
+		w := httptest.NewRecorder()
+		go func() {
+			<-start
+			r.cb.ServeHTTP(w, req)
+			if atomic.LoadInt32(&rq.fell) == 1 {
+				fell <- struct{}{}
+			}
+			rq.done <- struct{}{}
+		}()
+	}
+	close(start)
+	timeout := time.After(waitLimit)
+	for decided := 0; decided < k; decided++ {
+		select {
+		case rq := <-r.entered:
+			r.inflight = append(r.inflight, rq)
+			passed++
+		case <-fell:
+		case <-timeout:
+			return passed, fmt.Errorf("%d of %d requests reached no handler within %v", k-decided, k, waitLimit)
+		}
+	}
+	return passed, nil
+}
+
 func (r *runner) finish(rq *request, code int) error {
 	rq.release <- code
 	select {
@@ -424,6 +460,7 @@ func (c *cbComp) Run(h *hlib.History) ([]hlib.Mon, bool) {
 		case len(op) >= 4 && op[0] == 1 && op[1] >= 0 && op[2] >= 100 && op[2] <= 999:
 		case len(op) == 2 && op[0] == 2 && op[1] >= 0:
 		case len(op) == 1 && op[0] == 3:
+		case len(op) == 2 && op[0] == 4 && op[1] >= 1 && op[1] <= 64:
 		default:
 			return nil, false
 		}
@@ -704,6 +741,41 @@ func (c *cbComp) Run(h *hlib.History) ([]hlib.Mon, bool) {
 			}
 			prev = cur
 
+		case 4: // k arrivals together
+			shielded := prev == stTripped && shieldOn && now < shieldEnd
+			if prev != stStandby && !shielded {
+				h.Ops[step] = []int64{3}
+				h.Obs = append(h.Obs, []int64{})
+				continue
+			}
+			k := op[1]
+			passed, err := r.burst(int(k))
+			if err != nil {
+				mon("C05", step, "burst: %v", err)
+				return mons, true
+			}
+			r.settle()
+			cur := r.state()
+			nT, nS := r.effects(expT, expS)
+			h.Obs = append(h.Obs, []int64{passed, cur, nT, nS})
+			hlib.Count("bursts", 1)
+			if shielded {
+				hlib.Count("bursts_inside_fallback_period", 1)
+				if passed != 0 {
+					mon("C05", step, "%d requests arriving together %d ns after the trip (fallback duration %d ns): %d reached the protected handler", k, now-(shieldEnd-fb), fb, passed)
+				}
+			} else if passed != k {
+				mon("C05", step, "%d requests arriving together in standby: only %d passed on", k, passed)
+			}
+			if cur != prev {
+				mon("C05", step, "a burst of arrivals moved the state %d -> %d", prev, cur)
+			}
+			if nT != expT || nS != expS {
+				mon("C18", step, "side effects ran (onTripped %d, onStandby %d), transitions seen (->tripped %d, ->standby %d)", nT, nS, expT, expS)
+				expT, expS = nT, nS
+			}
+			prev = cur
+
 		case 2:
 			clock.Advance(time.Duration(op[1]))
 			h.Obs = append(h.Obs, []int64{})
@@ -869,6 +941,9 @@ func genStale(rng *rand.Rand) hlib.History {
 	}
 	// through fallback and recovery
 	h.Ops = append(h.Ops, []int64{0, 2})
+	if rng.Intn(2) == 0 {
+		h.Ops = append(h.Ops, []int64{4, int64(2 + rng.Intn(23))})
+	}
 	tick(fb)
 	h.Ops = append(h.Ops, []int64{0, 2}) // starts the recovery
 	if rng.Intn(2) == 0 {
@@ -945,6 +1020,7 @@ func (c *cbComp) Gen(rng *rand.Rand, idx int, tier string, targeted bool) hlib.H
 		return okCodes[rng.Intn(len(okCodes))]
 	}
 	arrive := func() { h.Ops = append(h.Ops, []int64{0, 2}) }
+	together := func() { h.Ops = append(h.Ops, []int64{4, int64(2 + rng.Intn(23))}) }
 	complete := func() { h.Ops = append(h.Ops, []int64{1, int64(rng.Intn(8)), code(), 2}) }
 	tick := func(d int64) { h.Ops = append(h.Ops, []int64{2, d}) }
 
@@ -968,6 +1044,9 @@ func (c *cbComp) Gen(rng *rand.Rand, idx int, tier string, targeted bool) hlib.H
 		}
 		for i := 0; i < 3; i++ {
 			arrive()
+			if i == 1 || rng.Intn(3) == 0 {
+				together()
+			}
 			if fb > 0 {
 				tick(fb / 4)
 			}
@@ -993,6 +1072,10 @@ func (c *cbComp) Gen(rng *rand.Rand, idx int, tier string, targeted bool) hlib.H
 		case r < 4:
 			perr = []int{0, 20, 50, 80, 100}[rng.Intn(5)]
 		case r < 12: // burst
+			if rng.Intn(3) == 0 {
+				together()
+				break
+			}
 			for i := 0; i < 2+rng.Intn(7); i++ {
 				arrive()
 			}
@@ -1033,6 +1116,12 @@ func (c *cbComp) Describe(h *hlib.History) interface{} {
 			obs = h.Obs[i]
 		}
 		switch op[0] {
+		case 4:
+			s := fmt.Sprintf("%d requests arrive together", op[1])
+			if len(obs) == 4 {
+				s += fmt.Sprintf(" -> %d passed on, %s, onTripped=%d onStandby=%d", obs[0], name(obs[1]), obs[2], obs[3])
+			}
+			ops = append(ops, s)
 		case 0:
 			s := "Arrive"
 			if len(obs) == 4 {
